@@ -31,7 +31,7 @@ Key(n) == <<<<>>, n>>
 Mem(v) == << [key |-> Key(TagA), b |-> [i \in 1..6 |-> v]], [key |-> Key(TagB), b |-> [i \in 1..8 |-> v]], [key |-> Key(TagD), b |-> [i \in 1..4 |-> v]],
              [key |-> Key(TagS), b |-> <<2, 0, 0, 0, v, v, v, v>>], [key |-> Key(TagU), b |-> [i \in 1..8 |-> v]] >>
 Lx(v) == [on |-> TRUE, P |-> P0, mem |-> Mem(v), pre |-> Mem(v), nsvc |-> 0, capi |-> 0, pagei |-> 0, xfer |-> <<>>, ledger |-> <<>>, svclog |-> <<>>,
-          okslices |-> {}, texts |-> <<>>, access |-> <<>>, fw |-> 32, allprogs |-> TRUE, upl |-> [pages |-> 0, refused |-> FALSE]]
+          okslices |-> {}, texts |-> <<>>, access |-> <<>>, fw |-> 32, allprogs |-> TRUE, unspecInj |-> FALSE, upl |-> [pages |-> 0, refused |-> FALSE]]
 
 Lv(n, idx) == [n |-> n, idx |-> idx]
 It(levels, bit, count, value) == [scope |-> <<>>, levels |-> levels, bit |-> bit, count |-> count, hascount |-> IF count > 1 THEN 1 ELSE 0, base |-> <<>>, value |-> value]
